@@ -59,6 +59,8 @@ class Contract:
         self.nolog = False
         self.rename = None
         self.closures = {}
+        self.btree_loops = []
+        self.loop_iter = {}
         self.rename_calls = {}
 
 
@@ -119,6 +121,9 @@ def parse_contracts(path):
             mm = re.match(r'(\d+)\s*:\s*(.*)$', rest)
             cur.closures[int(mm.group(1))] = mm.group(2)
             last = None
+        elif word == 'btree_loops':
+            cur.btree_loops = rest.split()
+            last = None
         elif word == 'rename':
             cur.rename = rest.strip()
             last = None
@@ -141,6 +146,12 @@ def parse_contracts(path):
             cur.clauses.append(c)
             last = (c, indent)
         elif word == 'loop':
+            mi = re.match(r'(\d+)\s+iter\s+(\w+)\s*$', rest)
+            if mi:
+                cur.loop_iter[int(mi.group(1))] = mi.group(2)
+                cur.loops.setdefault(int(mi.group(1)), [])
+                last = None
+                continue
             mm = re.match(r'(\d+)\s+(invariant|decreases)\s*(?:([\w.]+)\s*)?(?:\[([^\]]*)\])?\s*:\s*(.*)$', rest)
             if not mm:
                 raise ExtractError('%s:%d: bad loop clause' % (path, ln))
@@ -254,6 +265,53 @@ def strip_docs_and_attrs(text, keep_attr=lambda a: False):
     return s
 
 
+def publicize_fields(text):
+    """struct fields -> pub (visibility only; the assembled file splits prelude and code into two modules)"""
+    toks = rsscan.tokenize(text)
+    sig = rsscan.sig(toks)
+    # find the struct's field list: first '{' or '(' after the name, at depth 0 (skipping generics)
+    edits = []
+    start = None
+    for p, k in enumerate(sig):
+        if toks[k][0] == 'punct' and toks[k][1] in ('{', '('):
+            start = p
+            break
+    if start is None:
+        return text
+    close = rsscan.match_close(toks, sig[start])
+    p = start + 1
+    expect_field = True
+    while p < len(sig) and sig[p] < close:
+        t = toks[sig[p]]
+        if t[0] == 'punct' and t[1] in ('(', '[', '{', '<'):
+            if t[1] == '<':
+                # skip generic args
+                depth = 0
+                while p < len(sig) and sig[p] < close:
+                    tt = toks[sig[p]]
+                    if tt[1] == '<':
+                        depth += 1
+                    elif tt[1] == '>':
+                        depth -= 1
+                        if depth == 0:
+                            break
+                    p += 1
+            else:
+                e = rsscan.match_close(toks, sig[p])
+                while sig[p] < e:
+                    p += 1
+        elif t[0] == 'punct' and t[1] == ',':
+            expect_field = True
+        elif expect_field and (t[0] == 'ident' or t[0] == 'punct' and t[1] == '&'):
+            if not (t[0] == 'ident' and t[1] == 'pub'):
+                edits.append(t[2])
+            expect_field = False
+        p += 1
+    for pos in sorted(edits, reverse=True):
+        text = text[:pos] + 'pub ' + text[pos:]
+    return text
+
+
 def apply_rewrites(body, rel, base_line, log):
     """body: text of a function body (including braces).  Returns rewritten text."""
     def note(rule, pos, what):
@@ -270,6 +328,15 @@ def apply_rewrites(body, rel, base_line, log):
         note('R2', m.start(), m.group(0))
         return '|_ignored|'
     body = re.sub(r'\|\s*_\s*\|', r2, body)
+
+    # R12: std's two-parameter `Result<T, E>` (the assembled file has the crate's one-parameter alias `Result<T>` in scope)
+    body = qualify_std_result(body, note)
+
+    # R10: `(ident as f64)` -> `(cast_i128_as_f64(ident))`
+    def r10(m):
+        note('R10', m.start(), m.group(0))
+        return '(cast_i128_as_f64(%s))' % m.group(1)
+    body = re.sub(r'\(\s*([a-z_][A-Za-z0-9_]*)\s+as\s+f64\s*\)', r10, body)
 
     # token-level rewrites R3 / R8
     toks = rsscan.tokenize(body)
@@ -315,6 +382,55 @@ def apply_rewrites(body, rel, base_line, log):
         pos = e
     out.append(body[pos:])
     return ''.join(out)
+
+
+def qualify_std_result(text, note=None):
+    toks = rsscan.tokenize(text)
+    sig = rsscan.sig(toks)
+    edits = []
+    for p, k in enumerate(sig):
+        t = toks[k]
+        if t[0] == 'ident' and t[1] == 'Result' and p + 1 < len(sig) and toks[sig[p + 1]][1] == '<':
+            if p > 0 and toks[sig[p - 1]][1] == '::':
+                continue
+            depth = 0
+            commas = 0
+            q = p + 1
+            while q < len(sig):
+                tt = toks[sig[q]]
+                if tt[0] == 'punct':
+                    if tt[1] == '<':
+                        depth += 1
+                    elif tt[1] == '>':
+                        depth -= 1
+                        if depth == 0:
+                            break
+                    elif tt[1] in ('(', '['):
+                        e = rsscan.match_close(toks, sig[q])
+                        while sig[q] < e:
+                            q += 1
+                    elif tt[1] == ',' and depth == 1:
+                        commas += 1
+                q += 1
+            if commas == 1:
+                edits.append(t[2])
+                if note:
+                    note('R12', t[2], 'Result<_, _> -> core::result::Result<_, _>')
+    for pos in sorted(edits, reverse=True):
+        text = text[:pos] + 'core::result::' + text[pos:]
+    return text
+
+
+def rewrite_for_btree(body, vars_, rel, base_line, log):
+    """R4: `for PAT in IDENT {` where IDENT is listed by the contract as a `&BTreeMap<String, _>` ->
+    `for PAT in btree_entries(IDENT) {`"""
+    for v in vars_:
+        pat = re.compile(r'(\bfor\s+[^{;]*?\bin\s*(?:/\*@@INS\d+@@\*/)?\s*)%s(\s*(?:/\*@@INS\d+@@\*/\s*)?\{)' % re.escape(v))
+        def rr(m):
+            log.append({'rule': 'R4', 'where': '%s:%d' % (rel, base_line + body.count('\n', 0, m.start())), 'text': 'in %s -> in btree_entries(%s)' % (v, v)})
+            return '%sbtree_entries(%s)%s' % (m.group(1), v, m.group(2))
+        body = pat.sub(rr, body)
+    return body
 
 
 def insert_ghost_args(body, callees, arg, rel, base_line, log):
@@ -439,6 +555,10 @@ def annotate_closures(body, overrides, rel, base_line, log):
                 elif path in fn_ret_table():
                     tup = '(%s,)' % args if args else '()'
                     ann = '-> (o_c%d: %s) ensures call_ensures(%s, %s, o_c%d)' % (n, fn_ret_table()[path], path, tup, n)
+        if ann is None and n not in overrides:
+            m = re.match(r'^((?:[A-Za-z_][A-Za-z0-9_]*::)+)([A-Z][A-Za-z0-9_]*)$', inner)
+            if m:
+                ann = '-> (o_c%d: %s) ensures o_c%d == %s' % (n, m.group(1)[:-2], n, inner)
         if ann is not None:
             edits.append((bstart, bend, '%s { %s }' % (ann, inner)))
             log.append({'rule': 'G2', 'where': '%s:%d' % (rel, base_line + body.count('\n', 0, t[2])), 'text': 'closure %d: %s' % (n, ann)})
@@ -476,15 +596,18 @@ def find_loops(body):
         if t[0] == 'ident' and t[1] in ('for', 'while', 'loop'):
             # find next '{' at depth 0
             q = p + 1
+            in_pos = None
             while q < len(sig):
                 tt = toks[sig[q]]
                 if tt[0] == 'punct' and tt[1] in ('(', '['):
                     j = rsscan.match_close(toks, sig[q])
                     while sig[q] < j:
                         q += 1
+                elif tt[0] == 'ident' and tt[1] == 'in' and t[1] == 'for' and in_pos is None:
+                    in_pos = tt[3]
                 elif tt[0] == 'punct' and tt[1] == '{':
                     close = rsscan.match_close(toks, sig[q])
-                    res.append((tt[2], toks[close][2]))
+                    res.append((tt[2], toks[close][2], in_pos))
                     break
                 q += 1
     return res
@@ -503,6 +626,7 @@ class Assembler:
         self.rewrites = []
         self.hashes = []
         self.dropped = []
+        self.lifetime_types = set()
 
     def emit(self, text, info=None):
         first = len(self.lines) + 1
@@ -523,6 +647,11 @@ class Assembler:
         self.dropped.append({'item': '%s %s' % (kind, name), 'where': '%s:%d' % (rel, rsscan.line_of(src, it.start)),
                              'dropped_attrs': dropped})
         body = strip_docs_and_attrs(text)
+        body = re.sub(r'pub\s*\(\s*(crate|super)\s*\)', 'pub', body)     # visibility only: one module in the assembled file
+        if kind == 'struct':
+            body = publicize_fields(body)
+        if re.match(r'^(pub\s+)?struct\s+%s\s*<\s*\'' % re.escape(name), body):
+            self.lifetime_types.add(name)
         self.hashes.append({'item': '%s %s' % (kind, name), 'file': rel,
                             'src_sha256': hashlib.sha256(text.encode()).hexdigest()})
         self.emit(body, {'kind': 'type', 'name': name, 'file': rel})
@@ -545,12 +674,19 @@ class Assembler:
         attrs_dropped = list(it.attrs)
         # head: name the return value
         head_clean = strip_docs_and_attrs(head).rstrip()
+        head_clean = qualify_std_result(head_clean)
         if c.ret:
             m = re.search(r'->\s*(.+?)\s*(where\b.*)?$', head_clean, re.S)
             if not m:
                 raise ExtractError('fn %s: ret named but no return type' % key)
             rt = m.group(1)
             head_clean = head_clean[:m.start()] + '-> (%s: %s)' % (c.ret, rt) + ((' ' + m.group(2)) if m.group(2) else '')
+        for lt in self.lifetime_types:
+            # R11: elided lifetime of a struct with a lifetime parameter must be written in an async fn signature
+            # (the real code gets this from #[async_recursion], which is dropped)
+            head_clean, nsub = re.subn(r'\b%s\b(?!\s*<)' % re.escape(lt), lt + "<'_>", head_clean)
+            if nsub and 'Self' not in head_clean.split('->')[-1]:
+                self.rewrites.append({'rule': 'R11', 'where': '%s:%d' % (c.src, fn_line), 'text': "%s -> %s<'_>" % (lt, lt)})
         if c.rename:
             # R9: alpha-rename the item (Verus rejects a fn whose name equals one of its parameters)
             head_clean, nsub = re.subn(r'^fn\s+%s\b' % re.escape(c.name), 'fn ' + c.rename, head_clean)
@@ -575,6 +711,14 @@ class Assembler:
                 if pre.strip():
                     self.emit(pre)
             self.emit(it.ctx + ' {')
+            # associated type items of a trait impl (`type Error = Error;`) are copied with the method
+            src_all, toks_all, items_all = load_src(c.src)
+            for other in items_all:
+                if other.kind == 'type' and other.ctx == it.ctx and it.ctx and other.start > 0:
+                    # same impl block: lies between the impl's braces that also contain this fn
+                    encl = [x for x in items_all if x.kind == 'impl' and x.name == it.ctx and x.start <= it.start and it.end <= x.end]
+                    if encl and encl[0].start <= other.start and other.end <= encl[0].end:
+                        self.emit('    ' + strip_docs_and_attrs(src_all[other.start:other.end]).strip())
             for ai in c.hints.get('__impl_items__', '').split('\n'):
                 if ai.strip():
                     self.emit('    ' + ai)
@@ -602,7 +746,11 @@ class Assembler:
         for n, cls in c.loops.items():
             if n < 1 or n > len(loops):
                 raise ExtractError('lost anchor: fn %s has %d loops, contract names loop %d' % (key, len(loops), n))
-            lo, lc = loops[n - 1]
+            lo, lc, in_pos = loops[n - 1]
+            if n in c.loop_iter:
+                if in_pos is None:
+                    raise ExtractError('fn %s: loop %d is not a for loop' % (key, n))
+                inserts.append((in_pos, ' %s:' % c.loop_iter[n]))
             txt = []
             for kind in ('invariant', 'decreases'):
                 cc = [x for x in cls if x.kind == kind]
@@ -624,8 +772,16 @@ class Assembler:
                 n = int(m.group(1))
                 if n < 1 or n > len(loops):
                     raise ExtractError('lost anchor: fn %s loop %d for hint' % (key, n))
-                lo, lc = loops[n - 1]
-                inserts.append(((lo + 1) if m.group(2) == 'start' else lc, '\n' + text + '\n'))
+                lo, lc, _ip = loops[n - 1]
+                if m.group(2) == 'end':
+                    # R13: a loop body has type (); terminate its last expression statement so a ghost block can follow
+                    tail = b[lo + 1:lc].rstrip()
+                    semi = '' if (tail.endswith(';') or tail.endswith('}') or tail == '') else ';'
+                    if semi:
+                        log.append({'rule': 'R13', 'where': '%s:%d' % (c.src, base_line + b.count('\n', 0, lc)), 'text': "';' appended to the last statement of loop %d" % n})
+                    inserts.append((lc, semi + '\n' + text + '\n'))
+                else:
+                    inserts.append((lo + 1, '\n' + text + '\n'))
             elif anchor.startswith('before '):
                 needle = anchor[len('before '):]
                 cnt = b.count(needle)
@@ -649,6 +805,8 @@ class Assembler:
             b = b[:off] + ph + b[off:]
         b = apply_rewrites(b, c.src, base_line, log)
         b = annotate_closures(b, c.closures, c.src, base_line, log)
+        if c.btree_loops:
+            b = rewrite_for_btree(b, c.btree_loops, c.src, base_line, log)
         if c.rename_calls:
             b = rename_calls(b, c.rename_calls, c.src, base_line, log)
         if c.ghost_calls:
